@@ -2,7 +2,7 @@
 // listening on a loopback port (standard and netpoll transport), with raw TCP clients, and records what the
 // public API lets an application observe (spec/ShutdownTrace.tla validates it):
 //
-//	Dial{c} Connected{c} DialFailed{c} Accept{c} HandlerEnter{c,r} HandlerExit{c,r,running}
+//	Dial{c} Connected{c} DialFailed{c} Accept{c} OnConnect{c} HandlerEnter{c,r} HandlerExit{c,r,running}
 //	ResponseComplete{c,r,status,close,bytesOk,n} ResponseTruncated{c,r} ResponseNone{c,r,why} SendFailed{c,r}
 //	ShutdownCall{k} ShutdownReturn{k,err,elapsedMs} ShutdownHung{k} HookStart{h} HookEnd{h}
 //	DialAfter{result} RunReturn{err} RaceTrial{t,callers,nils,errs} Panic{msg} End
@@ -101,12 +101,29 @@ func (l *evlog) register(addr string, c int) {
 	l.mu.Unlock()
 }
 
+// lookup waits (briefly) until the client that owns the address has registered it; -1 if nobody does
+func (l *evlog) lookup(addr string, wait time.Duration) int {
+	deadline := time.Now().Add(wait)
+	for {
+		l.mu.Lock()
+		c, ok := l.addrs[addr]
+		l.mu.Unlock()
+		if ok {
+			return c
+		}
+		if time.Now().After(deadline) {
+			return -1
+		}
+		time.Sleep(100 * time.Microsecond)
+	}
+}
+
 func (l *evlog) flush(tr *vtrace.Writer) {
 	l.mu.Lock()
 	defer l.mu.Unlock()
 	for _, r := range l.evs {
 		ev := r["ev"].(string)
-		if ev == "Accept" {
+		if ev == "Accept" || ev == "OnConnect" {
 			c, ok := l.addrs[r["addr"].(string)]
 			if !ok {
 				c = -1
@@ -127,6 +144,10 @@ type connCtl struct {
 	gated   bool
 	entered chan int // handler entered (request number)
 	lastEnt int32    // highest request number whose handler was entered
+
+	cbGate    chan struct{} // kinds aL / cL: closed by the client, the OnAccept / OnConnect callback may return
+	cbEntered chan struct{} // closed by the callback when it holds the connection
+	cbOnce    sync.Once
 }
 
 type run struct {
@@ -160,7 +181,9 @@ func bodySize(kind string) int {
 
 type lnIface interface{ Listener() net.Listener }
 
-func newServer(c *Case, log *evlog) (*server.Hertz, func() network.Transporter) {
+// hold, when set, is called by the OnAccept ("aL") and OnConnect ("cL") callbacks with the peer address; it blocks
+// while the driver holds that connection inside the callback
+func newServer(c *Case, log *evlog, hold func(stage, addr string)) (*server.Hertz, func() network.Transporter) {
 	var captured network.Transporter
 	mk := standard.NewTransporter
 	if c.Tp == "netpoll" {
@@ -173,13 +196,38 @@ func newServer(c *Case, log *evlog) (*server.Hertz, func() network.Transporter) 
 		server.WithDisablePrintRoute(true),
 		server.WithOnAccept(func(conn net.Conn) context.Context {
 			log.emit("Accept", vtrace.Rec{"addr": conn.RemoteAddr().String()})
+			if hold != nil {
+				hold("aL", conn.RemoteAddr().String())
+			}
 			return context.Background()
+		}),
+		server.WithOnConnect(func(ctx context.Context, conn network.Conn) context.Context {
+			log.emit("OnConnect", vtrace.Rec{"addr": conn.RemoteAddr().String()})
+			if hold != nil {
+				hold("cL", conn.RemoteAddr().String())
+			}
+			return ctx
 		}),
 	}
 	if c.IdleMs > 0 {
 		opts = append(opts, server.WithIdleTimeout(time.Duration(c.IdleMs)*time.Millisecond))
 	}
 	return server.New(opts...), func() network.Transporter { return captured }
+}
+
+// hold runs inside the transport's OnAccept / OnConnect callback: a connection of kind `stage` is held there until
+// its client opens the gate (after Shutdown has returned)
+func (x *run) hold(stage, addr string) {
+	c := x.log.lookup(addr, 2*time.Second)
+	if c <= 0 || c >= len(x.ctl) || x.ctl[c].kind != stage {
+		return
+	}
+	ctl := x.ctl[c]
+	ctl.cbOnce.Do(func() { close(ctl.cbEntered) })
+	select {
+	case <-ctl.cbGate:
+	case <-time.After(3 * patience):
+	}
 }
 
 func (x *run) handler(_ context.Context, ctx *app.RequestContext) {
@@ -406,6 +454,22 @@ func (cl *client) script(ready func()) {
 		<-x.phaseB
 		cl.jitter()
 		cl.read(1)
+	case "aL", "cL":
+		// dialled by the driver after every other connection is through its first phase (the callback blocks the
+		// accept loop of the standard transport)
+		cl.jitter()
+		if !cl.dial() || !cl.write(1, cl.reqBytes(1, 0)) {
+			return
+		}
+		select {
+		case <-x.ctl[cl.id].cbEntered: // the request is in the socket buffer, the connection is held in the callback
+		case <-time.After(2 * time.Second): // (a second held connection behind a blocked accept loop never gets there)
+		}
+		markReady()
+		<-x.phaseC
+		cl.jitter()
+		close(x.ctl[cl.id].cbGate)
+		cl.read(1)
 	case "dD":
 		markReady()
 		<-x.phaseB
@@ -496,7 +560,9 @@ func (x *run) installHooks(begun chan struct{}, hooksDone *sync.WaitGroup) {
 			case "slow":
 				time.Sleep(wait / 4)
 			case "beyond":
-				time.Sleep(wait + wait/2)
+				// ignores its context and overruns the bound on Shutdown's return; the case does not wait for it
+				doneOnce.Do(hooksDone.Done)
+				time.Sleep(wait + time.Duration(slack(x.c.WaitMs)+500)*time.Millisecond)
 			}
 			x.log.emit("HookEnd", vtrace.Rec{"h": i})
 			doneOnce.Do(hooksDone.Done)
@@ -518,12 +584,20 @@ func waitTimeout(wg *sync.WaitGroup, d time.Duration) bool {
 // ---------------------------------------------------------------- the three case classes
 
 func runServerCase(c *Case, log *evlog) {
-	h, transporter := newServer(c, log)
-	x := &run{c: c, log: log, h: h, phaseB: make(chan struct{}), phaseC: make(chan struct{})}
+	x := &run{c: c, log: log, phaseB: make(chan struct{}), phaseC: make(chan struct{})}
+	var hold func(stage, addr string)
+	for _, k := range c.Conns {
+		if k == "aL" || k == "cL" {
+			hold = x.hold
+		}
+	}
+	h, transporter := newServer(c, log, hold)
+	x.h = h
 	x.ctl = make([]*connCtl, len(c.Conns)+1)
 	x.ctl[0] = &connCtl{kind: "probe", entered: make(chan int, 8)}
 	for i, k := range c.Conns {
-		x.ctl[i+1] = &connCtl{kind: k, gate: make(chan struct{}), gated: k == "bA" || k == "bL", entered: make(chan int, 8)}
+		x.ctl[i+1] = &connCtl{kind: k, gate: make(chan struct{}), gated: k == "bA" || k == "bL", entered: make(chan int, 8),
+			cbGate: make(chan struct{}), cbEntered: make(chan struct{})}
 	}
 	h.GET("/c/:c/:r", x.handler)
 	begun := make(chan struct{})
@@ -562,11 +636,16 @@ func runServerCase(c *Case, log *evlog) {
 	}()
 
 	// phase A: every connection does its part before the shutdown call
-	var ready, finished sync.WaitGroup
+	var ready, othersReady, finished sync.WaitGroup
+	var heldTurn sync.Mutex // held connections dial one after the other
 	for i, k := range c.Conns {
 		cl := &client{x: x, id: i + 1, kind: k, rng: rand.New(rand.NewSource(int64(c.Seed)*31 + int64(i)))}
+		held := k == "aL" || k == "cL"
 		ready.Add(1)
 		finished.Add(1)
+		if !held {
+			othersReady.Add(1)
+		}
 		go func() {
 			defer finished.Done()
 			defer func() {
@@ -574,7 +653,13 @@ func runServerCase(c *Case, log *evlog) {
 					log.emit("Panic", vtrace.Rec{"msg": fmt.Sprint(r)})
 				}
 			}()
-			cl.script(ready.Done)
+			if held {
+				waitTimeout(&othersReady, patience)
+				heldTurn.Lock()
+				cl.script(func() { heldTurn.Unlock(); ready.Done() })
+			} else {
+				cl.script(func() { othersReady.Done(); ready.Done() })
+			}
 		}()
 	}
 	waitTimeout(&ready, patience)
@@ -653,7 +738,7 @@ func runServerCase(c *Case, log *evlog) {
 }
 
 func runNotRun(c *Case, log *evlog) {
-	h, _ := newServer(c, log)
+	h, _ := newServer(c, log, nil)
 	x := &run{c: c, log: log, h: h}
 	var hooksDone sync.WaitGroup
 	x.installHooks(make(chan struct{}), &hooksDone)
@@ -666,7 +751,7 @@ func runNotRun(c *Case, log *evlog) {
 // no listener, so a trial costs one 10 ms tick of the standard transport at most)
 func runRaceN(c *Case, log *evlog) {
 	for t := 1; t <= c.Trials; t++ {
-		h, _ := newServer(c, log)
+		h, _ := newServer(c, log, nil)
 		if err := h.Engine.Init(); err != nil {
 			panic(err)
 		}
